@@ -524,6 +524,104 @@ func cases(thorough bool) []fcase {
 	return out
 }
 
+// ---- two faults whose exception deliveries overlap (two goroutines, or a write issued by an exception handler) ----
+
+var errOnWrite, errOnEvent = errors.New("write handler failure"), errors.New("event handler failure")
+
+type twoObs struct {
+	env     *hlib.Env
+	seen    []error
+	escaped []any
+	follow  error
+}
+
+// excLog consumes exceptions; while it handles one it gives other goroutines a chance to run, and -
+// in the nested variant - answers the first exception with a write of its own.
+type excLog struct {
+	o      *twoObs
+	nested bool
+	wrote  bool
+}
+
+func (e *excLog) HandleException(ctx netty.ExceptionContext, ex netty.Exception) {
+	e.o.seen = append(e.o.seen, ex)
+	vsched.Yield("inside the exception handler")
+	if e.nested && !e.wrote {
+		e.wrote = true
+		ctx.Write([]byte("reaction")) // passes the failing write handler: a second exception while the first is being handled
+	}
+}
+
+type failing struct{}
+
+func (failing) HandleWrite(ctx netty.OutboundContext, m netty.Message) { panic(errOnWrite) }
+func (failing) HandleEvent(ctx netty.EventContext, ev netty.Event)     { panic(errOnEvent) }
+
+func twoFaults(cfg hlib.ChanCfg, nested bool) *explore.Scenario {
+	name := fmt.Sprintf("%s/two faults with overlapping exception deliveries (Channel.Write || Channel.Trigger), exceptions consumed", cfg)
+	if nested {
+		name = fmt.Sprintf("%s/an exception handler whose own ctx.Write fails while it handles an exception", cfg)
+	}
+	return &explore.Scenario{
+		Name:  name,
+		Bound: 2,
+		Cache: true,
+		Cfg:   vsched.Config{MaxSteps: 8000},
+		Init:  func() any { return &twoObs{} },
+		Body: func(v any) {
+			o := v.(*twoObs)
+			// outbound events travel tail -> head: the failing handler sits in front of the logger for writes
+			o.env = hlib.NewEnv(cfg, nil, &hlib.Reader{}, failing{}, &excLog{o: o, nested: nested})
+			guard := func(f func()) {
+				defer func() {
+					if r := recover(); r != nil {
+						o.escaped = append(o.escaped, r)
+					}
+				}()
+				f()
+			}
+			var ths []*vsched.Thread
+			ths = append(ths, vsched.Go("trigger", func() { guard(func() { o.env.Ch.Trigger(&struct{ n int }{1}) }) }))
+			if !nested {
+				ths = append(ths, vsched.Go("write", func() { guard(func() { o.env.Ch.Write([]byte("out")) }) }))
+			}
+			for _, t := range ths {
+				vsched.Join(t)
+			}
+			_, o.follow = o.env.Ch.Write1(mock.Payload(1, 3))
+		},
+		Outcome: func(x *vsched.Exec, v any) string {
+			o := v.(*twoObs)
+			return fmt.Sprint(o.seen, o.escaped, o.follow, o.env.T.LogString())
+		},
+		Check: func(x *vsched.Exec, v any) []explore.Finding {
+			o := v.(*twoObs)
+			var fs []explore.Finding
+			add := func(k, m string) { fs = append(fs, explore.Finding{Key: "overlapping-exceptions/" + k, Msg: m}) }
+			ctxs := fmt.Sprintf(" exceptions delivered: %v; transport: %s", o.seen, o.env.T.LogString())
+			if len(o.escaped) > 0 {
+				add("panic-escaped", fmt.Sprintf("a panic escaped into the caller: %v;%s", o.escaped, ctxs))
+			}
+			nw, ne := 0, 0
+			for _, e := range o.seen {
+				if errors.Is(e, errOnWrite) {
+					nw++
+				}
+				if errors.Is(e, errOnEvent) {
+					ne++
+				}
+			}
+			if nw != 1 || ne != 1 || len(o.seen) != 2 {
+				add("delivery-count", fmt.Sprintf("each of the two faults must be delivered to the exception handler exactly once (write fault x%d, event fault x%d);%s", nw, ne, ctxs))
+			}
+			if o.follow != nil || !o.env.Ch.IsActive() {
+				add("unusable", fmt.Sprintf("both exceptions were consumed but the channel is not usable afterwards (follow-up write: %v);%s", o.follow, ctxs))
+			}
+			return fs
+		},
+	}
+}
+
 // ---- a library handler that panics: the channel holder refusing a duplicate channel id ----
 
 type dupObs struct {
@@ -624,11 +722,11 @@ func dupScenario(cfg hlib.ChanCfg, consume bool) *explore.Scenario {
 func main() {
 	explore.Main(explore.Spec{
 		Property: "C07",
-		Rule:     "every injection point: exception-handling shape {none, all forward, swallow at position 0/1/2} x panicking handler position {0,1,2} x event/entry {active and read via the read loop; write via Channel.Write and ctx.Write; user event via Channel.Trigger, ctx.Trigger and the read-idle timer callback (virtual time)} x panic value {error, string, runtime error from a nil-map write, timeout net.Error, non-timeout net.Error} x channel state {open, closing on another goroutine, closed} on sync and aq(2,B); plus transport Write/Writev/Flush/Read failing at call 1..3 with plain / timeout / non-timeout errors, and connections whose writes keep failing from call 1/2 on with more packets queued than one sender batch (aq(2,B), aq(4,B), 6 writes); a transport read failing inside a frame body behind the length-field, fixed-length and varint decoders (the transport's error must be in the exception's chain); a library handler that panics: two channels with the same id on one channel holder, exception consumed or not, then writes, Close and CloseAll. Each case is a closed driver explored over all interleavings up to 1 (closing: 2) preemptions. Oracle: no panic escapes into the caller, no framework goroutine dies, no deadlock; on an open channel the exception visits the exception handlers head->tail exactly once up to the first consumer with the identical value (equal text for non-errors); unconsumed (or failed background write) => exactly one inactive carrying that value and one transport Close; consumed and not a non-timeout net.Error => the channel stays usable (follow-up write succeeds). distinct = distinct (handler visit log, transport log, follow-up) observations",
+		Rule:     "every injection point: exception-handling shape {none, all forward, swallow at position 0/1/2} x panicking handler position {0,1,2} x event/entry {active and read via the read loop; write via Channel.Write and ctx.Write; user event via Channel.Trigger, ctx.Trigger and the read-idle timer callback (virtual time)} x panic value {error, string, runtime error from a nil-map write, timeout net.Error, non-timeout net.Error} x channel state {open, closing on another goroutine, closed} on sync and aq(2,B); plus transport Write/Writev/Flush/Read failing at call 1..3 with plain / timeout / non-timeout errors, and connections whose writes keep failing from call 1/2 on with more packets queued than one sender batch (aq(2,B), aq(4,B), 6 writes); a transport read failing inside a frame body behind the length-field, fixed-length and varint decoders (the transport's error must be in the exception's chain); two faults whose exception deliveries overlap (Channel.Write || Channel.Trigger with a consuming handler that yields; an exception handler whose own ctx.Write fails): each delivered exactly once; a library handler that panics: two channels with the same id on one channel holder, exception consumed or not, then writes, Close and CloseAll. Each case is a closed driver explored over all interleavings up to 1 (closing: 2) preemptions. Oracle: no panic escapes into the caller, no framework goroutine dies, no deadlock; on an open channel the exception visits the exception handlers head->tail exactly once up to the first consumer with the identical value (equal text for non-errors); unconsumed (or failed background write) => exactly one inactive carrying that value and one transport Close; consumed and not a non-timeout net.Error => the channel stays usable (follow-up write succeeds). distinct = distinct (handler visit log, transport log, follow-up) observations",
 		Assume:   []string{"exception handlers themselves do not panic", "for a consumed non-timeout network error either outcome (closed or open) is accepted"},
 		Build: func(tier string) []*explore.Scenario {
 			th := tier == "thorough"
-			return []*explore.Scenario{dupScenario(hlib.ChanCfg{}, false), dupScenario(hlib.ChanCfg{}, true), dupScenario(hlib.ChanCfg{Q: 2, Until: true}, false), dupScenario(hlib.ChanCfg{Q: 2, Until: true}, true), {
+			return []*explore.Scenario{twoFaults(hlib.ChanCfg{}, false), twoFaults(hlib.ChanCfg{Q: 2, Until: true}, false), twoFaults(hlib.ChanCfg{}, true), dupScenario(hlib.ChanCfg{}, false), dupScenario(hlib.ChanCfg{}, true), dupScenario(hlib.ChanCfg{Q: 2, Until: true}, false), dupScenario(hlib.ChanCfg{Q: 2, Until: true}, true), {
 				Name:   "fault-injection matrix",
 				Shards: 16,
 				Bound:  map[bool]int{false: 1, true: 2}[th],
